@@ -143,16 +143,20 @@ def run_impl(mod, cases):
     return outs
 
 
+def safe_oracle(mod, c):
+    """the oracle drives the real code; an exception escaping from it is itself reported as a failure message"""
+    try:
+        return list(mod.oracle(c) or [])
+    except Exception as e:
+        return ["oracle-crash:" + type(e).__name__ + ":" + str(e)[:200] + " @" + traceback.format_exc().splitlines()[-3].strip()]
+
+
 def run_oracle(mod, cases):
     fails = []
     if not hasattr(mod, "oracle"):
         return fails
     for c in cases:
-        try:
-            msgs = mod.oracle(c)
-        except Exception as e:
-            msgs = ["oracle-crash:" + type(e).__name__ + ":" + str(e)[:200] + " @" + traceback.format_exc().splitlines()[-3].strip()]
-        for m in msgs or []:
+        for m in safe_oracle(mod, c):
             fails.append((c, m))
     return fails
 
@@ -300,10 +304,10 @@ def main():
     if new_oracle_fails:
         c, m = new_oracle_fails[0]
         def bad(cand):
-            ms = mod.oracle(cand) or []
+            ms = safe_oracle(mod, cand)
             return any(not is_known(cand, x, known_active) for x in ms)
         c2 = shrink(mod, c, bad)
-        msgs = [x for x in (mod.oracle(c2) or []) if not is_known(c2, x, known_active)] or [m]
+        msgs = [x for x in safe_oracle(mod, c2) if not is_known(c2, x, known_active)] or [m]
         replay_path = write_replay(prop, {"property": prop, "kind": "oracle", "handler": handler, "line": c2.line,
                                           "data": c2.data, "failure": msgs, "seed": seed, "tier": tier,
                                           "how": f"./check {prop} --replay <this file>"})
@@ -411,15 +415,12 @@ def search(mod, prop, seed, known_active, is_known, budget_s):
         for c in gen_cases:
             if time.time() - t0 > budget_s:
                 break
-            try:
-                msgs = [m for m in (mod.oracle(c) or []) if not is_known(c, m, known_active)]
-            except Exception:
-                continue
+            msgs = [m for m in safe_oracle(mod, c) if not is_known(c, m, known_active)]
             if msgs:
                 def bad(cand):
-                    return any(not is_known(cand, x, known_active) for x in (mod.oracle(cand) or []))
+                    return any(not is_known(cand, x, known_active) for x in safe_oracle(mod, cand))
                 c2 = shrink(mod, c, bad)
-                return c2, [m for m in (mod.oracle(c2) or []) if not is_known(c2, m, known_active)] or msgs
+                return c2, [m for m in safe_oracle(mod, c2) if not is_known(c2, m, known_active)] or msgs
     return None
 
 
@@ -435,7 +436,7 @@ def do_replay(mod, prop, path):
         c = mod.rehydrate(c)
     out = run_impl(mod, [c])[0]
     print("implementation:", out)
-    msgs = mod.oracle(c) if hasattr(mod, "oracle") else []
+    msgs = safe_oracle(mod, c) if hasattr(mod, "oracle") else []
     for m in msgs or []:
         print("oracle:", m)
     if msgs:
